@@ -76,6 +76,8 @@ def leaf_tag_at_fault(t):
 def check_case(ctx: runner.Ctx, case):
     if case.get("what") == "mro":
         return check_mro_case(ctx, case)
+    if case.get("what") == "iodump":
+        return check_io_case(ctx, case)
     if case.get("all_modes", True) and not ctx.replaying:
         # generation dominates the cost: evaluate the generated (type, datum) under every mode combination
         for strict in ((True, False) if case["what"] == "load" else (True,)):
@@ -267,7 +269,79 @@ def literal_table_cases():
                            "debug": 0}
 
 
+# ------------------------------------------------------------------------------------ IO[bytes]: any binary stream
+# docs: IO[bytes] is "represented as base64 encoded string"; the hint admits every binary stream, not only BytesIO
+IO_STREAMS = ["bytesio", "bytesio_mid", "buffered_reader", "buffered_random", "raw_nonseekable", "tempfile"]
+
+
+def _make_stream(kind, content: bytes):
+    import io  # noqa: PLC0415
+    import tempfile  # noqa: PLC0415
+    if kind == "bytesio":
+        return io.BytesIO(content)
+    if kind == "bytesio_mid":
+        b = io.BytesIO(content)
+        b.seek(len(content) // 2)
+        return b
+    if kind == "buffered_reader":
+        return io.BufferedReader(io.BytesIO(content))
+    if kind == "buffered_random":
+        return io.BufferedRandom(io.BytesIO(content))
+    if kind == "raw_nonseekable":
+        class _Raw(io.RawIOBase):
+            def __init__(self, data):
+                self._d = io.BytesIO(data)
+
+            def readable(self):
+                return True
+
+            def seekable(self):
+                return False
+
+            def readinto(self, b):
+                return self._d.readinto(b)
+        return io.BufferedReader(_Raw(content))
+    f = tempfile.TemporaryFile()  # noqa: SIM115
+    f.write(content)
+    f.seek(0)
+    return f
+
+
+def io_cases():
+    for kind in IO_STREAMS:
+        for hexed in ("", "00ff61", "61626364" * 5):
+            for wrap in ("bare", "list", "optional", "dict"):
+                for dbg in (0, 1, 2):
+                    yield {"what": "iodump", "stream": kind, "h": hexed, "wrap": wrap, "debug": dbg}
+
+
+def check_io_case(ctx: runner.Ctx, case):
+    import base64  # noqa: PLC0415
+    import typing  # noqa: PLC0415
+    content = bytes.fromhex(case["h"])
+    exp = base64.b64encode(content).decode("ascii")
+    stream = _make_stream(case["stream"], content)
+    hint, value, expected = {
+        "bare": (typing.IO[bytes], stream, exp), "list": (typing.List[typing.IO[bytes]], [stream], [exp]),
+        "optional": (typing.Optional[typing.IO[bytes]], stream, exp), "dict": (typing.Dict[str, typing.IO[bytes]], {"k": stream}, {"k": exp}),
+    }[case["wrap"]]
+    ctx.case([case], case["stream"] not in ("bytesio",), sample=case, labels=["what:iodump", f"stream:{case['stream']}"])
+    try:
+        got = Retort(debug_trail=DEBUG[case["debug"]]).dump(value, hint)
+    except Exception as ex:  # noqa: BLE001
+        got = describe(ex)
+    finally_close = getattr(stream, "close", None)
+    if got != expected:
+        ctx.violation("dump_form", ("iobytes", case["stream"]), case,
+                      f"dump of a {case['stream']} holding {content!r} as {hint}: documented form {expected!r}, got {got!r}")
+    if finally_close:
+        finally_close()
+
+
 def explore(ctx: runner.Ctx):
+    for i, c in enumerate(io_cases()):
+        if i % ctx.nshards == ctx.shard:
+            runner.guarded(ctx, lambda k: check_case(ctx, k), c)
     for i, c in enumerate(mro_cases()):
         if i % ctx.nshards == ctx.shard and (ctx.tier == "thorough" or i % 7 == ctx.base_seed % 7):
             check_case(ctx, c)
